@@ -1,12 +1,12 @@
-SPECIFICATION TraceSpec
+SPECIFICATION SSpec
 CONSTANTS
-  Vars = {"a", "b", "c"}
-  Fams = {}
+  Vars = {"a", "b", "c", "d", "e"}
+  Fams = {"amo"}
   ClauseMax = 0
   AmoSeq = 0
-  AmoMax = 0
+  AmoMax = 5
   AmoPols = {0, 1}
-  HeuleKs = {}
+  HeuleKs = {3, 4}
   PbShape = "raw"
   PbTerms = 0
   PbPols = {0, 1}
@@ -14,11 +14,11 @@ CONSTANTS
   PbPos = 0
   PbBound = 0
   PbOps = {">="}
-  MaxMgrs = 0
-  MaxPosts = 0
-  EMIT = FALSE
-  PROBE = FALSE
-  ACKinds = {}
+  MaxMgrs = 1
+  MaxPosts = 1
+  EMIT = TRUE
+  PROBE = TRUE
+  ACKinds = {"clause", "imply", "amo_quadratic", "amo_heule", "pb_clause"}
   RDecs = {TRUE, FALSE}
   RTerms = 0
   RCoef = 0
@@ -34,3 +34,6 @@ CONSTANTS
   CMax2 = 0
   KMax2 = 0
 CHECK_DEADLOCK FALSE
+INVARIANT ProbeSound
+INVARIANT ProbeDetectsInconsistency
+INVARIANT ProbeArcConsistent
